@@ -32,7 +32,7 @@ LEVEL_NOTE = ('trusted base: Fraction arithmetic (exact cells); released mpmath 
 TECHNIQUE = 'runtime reference-model monitor: exact rational oracle for terminating series, consensus oracle otherwise'
 SHARD_TIMEOUT = {'quick': 600, 'thorough': 3000}
 CASES = {'quick': 400, 'thorough': 8000}
-BUDGET = {'quick': 50, 'thorough': 780}
+BUDGET = {'quick': 50, 'thorough': 420}
 NSHARDS = 16
 HV = dict(heavy=True)
 
@@ -469,6 +469,9 @@ def t_hyp2f1():
         RG('a-near-npint/0.8..1', A(p_nnp, p_gen, p_low, uniform_bits(0.8, 0.9999))),
         RG('a-near-npint/|z|>=1.3', A(p_nnp, p_gen, p_low, uniform_bits(-30.0, -1.3))),
         RG('z=1/convergent', lambda r, b: _z1_convergent(r, b)),
+        # slowly decaying alternating series with 30..50 bits of cancellation: the window in which hypsum's own
+        # accuracy test (cancellation vs. extra precision / term cut-off) decides
+        RG('pos-params-5..40/z-in-[-0.8,-0.5]', A(uniform_bits(5.0, 40.0), uniform_bits(5.0, 40.0), uniform_bits(0.5, 10.0), uniform_bits(-0.8, -0.5)), weight=3),
         RG('z=-1', A(p_gen, p_gen, p_gpos, choice(-1))),
         RG('large-params/|z|<=0.8', A(p_big, p_big, p_big, z_in), **HV),
         RG('large-params/-3..-0.8', A(real_in(3, 6), real_in(3, 6), real_in(3, 6, 0), uniform_bits(-3.0, -0.8)), **HV),
@@ -547,6 +550,7 @@ def t_hyp3f2():
         RG('generic/|z|>=1.1-complex', A(*(g + (polar(1.1, 50.0),)))),
         RG('generic/|z|>=1.1-on-cut', A(*(g + (uniform_bits(1.1, 50.0),)))),
         RG('int-params/|z|<=0.8', A(*(gi + (z_in,)))),
+        RG('pos-params-5..30/z-in-[-0.8,-0.5]', A(uniform_bits(5.0, 30.0), uniform_bits(5.0, 30.0), uniform_bits(1.0, 8.0), uniform_bits(1.0, 10.0), uniform_bits(1.0, 10.0), uniform_bits(-0.8, -0.5)), weight=2),
         RG('int-params(degenerate)/|z|>=1.1', A(*(gi + (uniform_bits(-50.0, -1.1),))), **HV),
         RG('a-near-coincident/|z|>=1.1', flat(coincident(p_rat, 8, 60, (-2, 2)), p_gen, p_low, p_low, uniform_bits(-50.0, -1.1)), **HV),
         RG('b-near-npint/|z|<=0.8', A(p_gen, p_gen, p_gen, p_nnp, p_low, z_in)),
@@ -772,8 +776,6 @@ def t_jacobi():
         RG('int-degree/generic/[-1,1]', A(integer(0, 30), ab, ab, x_in), weight=2),
         RG('int-degree/generic/outside', A(integer(0, 30), ab, ab, x_out)),
         RG('int-degree/generic/complex', A(integer(0, 30), ab, ab, x_c)),
-        RG('int-degree/a-npint/[-1,1]', A(integer(0, 12), integer(-6, -1), ab, x_in)),
-        RG('int-degree/a-b-npint/[-1,1]', A(integer(0, 12), integer(-6, -1), integer(-6, 6), x_in)),
         RG('int-degree/a-near-npint/[-1,1]', A(integer(0, 12), p_nnp, ab, x_in)),
         RG('real-degree/(-0.6,1]', A(deg_real, ab, ab, uniform_bits(-0.6, 1.0)), weight=2),
         RG('real-degree/[-1,-0.6)', A(deg_real, ab, ab, uniform_bits(-0.9999, -0.6))),
@@ -932,7 +934,9 @@ def exact_cells():
         'gegenbauer': [make_poly_cell('gegenbauer', 'int-degree/rational-a>0/[-1,1]', 1, 0, 40, -1.0, 1.0, positive_par=True),
                        make_poly_cell('gegenbauer', 'int-degree/rational-a>0/outside', 1, 0, 30, -20.0, 20.0, positive_par=True)],
         'jacobi': [make_poly_cell('jacobi', 'int-degree/rational-a,b>-1/[-1,1]', 2, 0, 40, -1.0, 1.0, par_gt=-1),
-                   make_poly_cell('jacobi', 'int-degree/rational-a,b>-1/outside', 2, 0, 30, -20.0, 20.0, par_gt=-1)],
+                   make_poly_cell('jacobi', 'int-degree/rational-a,b>-1/outside', 2, 0, 30, -20.0, 20.0, par_gt=-1),
+                   make_poly_cell('jacobi', 'int-degree/integer-a,b-in--6..6/[-1,1]', 2, 0, 12, -1.0, 1.0, par_lo=-6, par_hi=6, dens=(1,)),
+                   make_poly_cell('jacobi', 'int-degree/rational-a,b-any/[-1,1]', 2, 0, 20, -1.0, 1.0, par_lo=-6, par_hi=6)],
     }
     return out
 
